@@ -200,7 +200,9 @@ Proof. intros H l. induction l as [|x l IH]; intros s; cbn [fold_left]; [apply T
 Lemma settle_T3 s : T3 s (settle s).
 Proof.
   unfold settle. eapply T3_trans; [|unfold materialise; apply fold_T3]; [repeat split|].
-  intros s0 k. destruct (alookup _ _); [|apply T3_refl]. destruct (Manager.find_handler _ _); [|apply T3_refl]. repeat split.
+  intros s0 k. destruct (alookup _ _); [|apply T3_refl]. destruct (Manager.find_handler _ _) as [mh|]; [|apply T3_refl].
+  eapply T3_trans; [|eapply T3_trans; [apply (fold_T3 (fun s w => set_clock s (Manager.h_tgt mh) (collect (clock_of s (Manager.h_tgt mh)) (ws_seek w)))); intros sx wx; repeat split|repeat split]].
+  repeat split.
 Qed.
 Lemma fold_add_shard_T3 c ref : forall shards s, T3 s (fold_left (fun s sh => add_shard s c ref sh) shards s).
 Proof. induction shards as [|sh r IH]; intros s; cbn [fold_left]; [apply T3_refl|]. eapply T3_trans; [apply add_shard_T3|apply IH]. Qed.
